@@ -51,15 +51,13 @@ fn main() {
                 };
                 let ctx = Ctx { threads, delay, tpool };
                 writeln!(w, "B {id}").unwrap();
-                let mut out = String::new();
                 match elem {
-                    "tr" => run_history::<Tr>(id, &ops, &ctx, &mut out),
-                    "unit" => run_history::<Unit>(id, &ops, &ctx, &mut out),
-                    "zd" => run_history::<Zd>(id, &ops, &ctx, &mut out),
-                    "w24" => run_history::<W24>(id, &ops, &ctx, &mut out),
+                    "tr" => run_history::<Tr>(id, &ops, &ctx, &mut w),
+                    "unit" => run_history::<Unit>(id, &ops, &ctx, &mut w),
+                    "zd" => run_history::<Zd>(id, &ops, &ctx, &mut w),
+                    "w24" => run_history::<W24>(id, &ops, &ctx, &mut w),
                     other => panic!("unknown element type {other}"),
                 }
-                w.write_all(out.as_bytes()).unwrap();
                 w.flush().unwrap();
             }
             _ => {}
